@@ -554,7 +554,7 @@ pub fn checks() -> Vec<Box<dyn DynCheck>> {
 }
 
 pub fn run(ctx: &Ctx) {
-    ctx.set_rule("exhaustive: every ordered pair of fitting class subsets of the quotient filters (q,r) = (2,1), (1,2) (thorough: (2,2), (3,1)) under the Ident hasher: union Ok iff the union fits, result = set union, other operand and (on Err) self unchanged. generated: structure in {Bloom, Quotient, Cuckoo, HashSet, CMS, HLL} x configuration x hasher family x streams A, B, C over one colliding universe with generated overlap (as generated, equal, nested, empty, near capacity). Oracle on a successful merge: B unchanged; A∪B observationally equal (query/query_point over universe + fresh keys, len, is_empty, count, registers, result of one further insert/add on clones) to a fresh structure fed A then B (cuckoo: class-multiset model with per-class copy counts, plus the sequential reference whenever it accepted everything); commutativity, associativity (Bloom, Quotient, HashSet, CMS, HLL); idempotence (Bloom, Quotient, HashSet, HLL). A failed union is checked against C12's unchanged-state oracle and, for the quotient filter, must be justified by the class count. For the cuckoo filter the operands may have had their oldest elements deleted again before the union (holes in buckets); their stream is then the surviving multiset. Non-trivial: both streams non-empty, merge succeeded, and for quotient the other operand has a shifted run or wraps (Ident) / for cuckoo the other operand used an alternate bucket (drew RNG words or holds > bucketsize copies of one key). Distinct = hash of the case. giant_tables: union of two Bloom filters of 2^32+15 bits and merge of two u8 sketches of width 2^31+3: every element of either operand present / not underestimated, answers equal to a structure that saw both streams, operand unchanged.");
+    ctx.set_rule("exhaustive: every ordered pair of fitting class subsets of the quotient filters (q,r) = (2,1), (1,2) (thorough: (2,2), (3,1)) under the Ident hasher: union Ok iff the union fits, result = set union, other operand and (on Err) self unchanged. generated: structure in {Bloom, Quotient, Cuckoo, HashSet, CMS, HLL} x configuration x hasher family x streams A, B, C over one colliding universe with generated overlap (as generated, equal, nested, empty, near capacity). Oracle on a successful merge: B unchanged; A∪B observationally equal (query/query_point over universe + fresh keys, len, is_empty, count, registers, result of one further insert/add on clones) to a fresh structure fed A then B (cuckoo: class-multiset model with per-class copy counts, plus the sequential reference whenever it accepted everything); commutativity, associativity (Bloom, Quotient, HashSet, CMS, HLL); idempotence (Bloom, Quotient, HashSet, HLL). A failed union is checked against C12's unchanged-state oracle and, for the quotient filter, must be justified by the class count. For the cuckoo filter the operands may have had their oldest elements deleted again before the union (holes in buckets); their stream is then the surviving multiset. Non-trivial: both streams non-empty, merge succeeded, and for quotient the other operand has a shifted run or wraps (Ident) / for cuckoo the other operand used an alternate bucket (drew RNG words or holds > bucketsize copies of one key). Distinct = hash of the case. giant_tables: union of two Bloom filters of 2^32+15 bits and merge of two u8 sketches of width 2^31+3: every element of either operand present / not underestimated, answers equal to a structure that saw both streams, operand unchanged; unions of quotient filters whose operand holds one cluster of a 260..700-class run followed by 270..600 occupied buckets (hundreds of pending runs), also wrapping the ring end.");
     ctx.run_regressions(&[&Filters, &Sketches, &QUnion]);
     let t = ctx.tier;
     exhaustive_quotient_unions(ctx, 2, 1);
